@@ -9,18 +9,29 @@ structure V where
   mode : String := ""
   K : Nat := 0
   n : Nat := 0
+  β : Nat := 0
 
 def step (v : V) (line : String) : V × String :=
   if line.startsWith "#" then ({}, line) else
   let (inp, impl) := splitTab line
   let ws := words inp
   match ws.head? with
-  | some "lookup" => ({ mode := C09.kvOf ws "mode", K := (C09.kvOf ws "K").toNat!, n := (C09.kvOf ws "n").toNat! }, "ok")
+  | some "lookup" => ({ mode := C09.kvOf ws "mode", K := (C09.kvOf ws "K").toNat!, n := (C09.kvOf ws "n").toNat!,
+                        β := (C09.kvOf ws "b").toNat! }, "ok")
   | some "finish" =>
     if impl.startsWith "panic" || impl.startsWith "HANG" then (v, "FAIL " ++ impl) else
     let iw := words impl
     let term := C09.kvOf iw "term"
     let peers := C09.kvOf iw "peers"
+    let states := (C09.kvOf iw "states").toList
+    let asked := splitList (C09.kvOf iw "asked")
+    -- a lookup that ended by itself as "completed" has answers from the beta nearest non-failed peers it learned
+    if term == "completed" && (states.take v.β).any (· != 'q') then
+      (v, s!"FAIL terminated as completed although one of the {v.β} nearest peers has not answered: states={String.ofList states}")
+    -- a result reported completed: the request was sent at least once to every returned peer
+    else if C09.kvOf iw "completed" == "1" && (splitList peers).any (fun p => !asked.contains p) then
+      (v, s!"FAIL completed, but a returned peer was never sent the request: peers={peers} asked={C09.kvOf iw "asked"}")
+    else
     if term != "completed" then
       -- an honest network where everybody answers can only end "completed" or, with nothing to ask, "starvation"
       (v, if term == "starvation" || term == "none" || ws.contains "abandon" then "ok" else "FAIL unexpected termination " ++ term)
